@@ -627,11 +627,14 @@ pub fn worker(cfg: &WorkerCfg, emit: &mut dyn FnMut(Violation)) -> Stats {
             let first_fired = out.state.trace.iter().position(|e| e.rule != -1 || e.errno != 0 || (e.call == Call::Write && e.ret != e.req.min(if sc.write_cap > 0 { sc.write_cap as i64 } else { i64::MAX }))).unwrap_or(fl.len());
             let n = first_fired.min(pl.len()).min(fl.len());
             if pl[..n] != fl[..n] {
-                stats.harness_errors.push(format!("determinism: faulted trace diverges from its profile before the first fault (g={})", g));
+                stats.count("profile_prefix_divergences", 1);
+                stats.warnings.push(format!("faulted trace diverges from its profile before the first fault (g={})", g));
             }
             stats.count("profile_prefix_checks", 1);
         }
-        stats.digests.insert(g, trace_digest(&out.state.trace) ^ fnv(format!("{:?}|{:?}", out.result, out.file.as_ref().map(|f| fnv(f))).as_bytes()));
+        let od = fnv(format!("{:?}|{:?}", out.result, out.file.as_ref().map(|f| fnv(f))).as_bytes());
+        stats.outcome_digests.insert(g, od);
+        stats.digests.insert(g, trace_digest(&out.state.trace) ^ od);
         // probes
         let nwrites = out.state.trace.iter().filter(|e| e.call == Call::Write).count();
         stats.probe("image_crosses_64k", sc.len > 65536);
